@@ -40,9 +40,40 @@ FAMILIES = {
                   "layout21raw/src/proto.rs: ProtoExporter::export_point, export_rect, ProtoImporter::import_point, import_rect = export_point / export_rect / import_point / import_rect of Raw/RawProto.v"),
     "raw_gds": ("Raw/KernelsTieRawGds_proofs.v", "Raw.KernelsTieRawGds_proofs", "Properties/KernelsRaw2.v",
                 "layout21raw/src/gds.rs: GdsImporter::import_boundary (closure test, pop, the two rectangle patterns, Rect / Polygon) = import_boundary of Raw/RawGds.v"),
+    # third part of the subset (HashSet / HashMap as abstract finite sets / maps, `&mut` parameters, open recursion): coq/Base/KernelOpsS.v
+    "order_generic": ("Order/KernelsTieOrder_proofs.v", "Order.KernelsTieOrder_proofs", "Properties/KernelsOrder.v",
+                      "layout21utils/src/dep_order.rs: DepOrderer::push (seen test, pending test + P::fail(), pending.insert, P::process(item, self)?, pending.remove test, seen.insert, "
+                      "stack.push) and DepOrderer::order = push / order_pending of Order/DepOrder.v: the body for any `process`, one step (model at fuel f -> model at fuel S f), and the whole "
+                      "function iterated on the model's fuel"),
+    "order_raw": ("Order/KernelsTieOrderRaw_proofs.v", "Order.KernelsTieOrderRaw_proofs", "Properties/KernelsOrder.v",
+                  "layout21raw/src/data.rs DepOrder::push / order, layout21raw/src/gds.rs GdsDepOrder::get / push / order (name map built by the first loop, SREF / AREF elements, lookup "
+                  "that can fail) = cpush / order_checked of Order/DepOrderFixed.v, one step of the recursion per theorem (the recursive call is an argument of the generated body)"),
+    "order_tetris": ("Tetris/KernelsTieOrderTetris_proofs.v", "Tetris.KernelsTieOrderTetris_proofs", "Properties/KernelsOrderTetris.v",
+                     "layout21tetris/src/library.rs DepOrder::push / order = cpush / order_checked (Order/DepOrderFixed.v); placer.rs PlaceOrder::process / fail and conv/proto.rs "
+                     "CellOrder::process / fail = `push every dependency, pass the error on` / the error return (the reading of P::process in the tie of the generic helper), on the graph "
+                     "lib_deps of Tetris/TProto.v; the orderer inside the placement model of C09 (Tetris/Placer.v push, node_dep) = the generic helper + PlaceOrder::process"),
+    "tetris_conv": ("Tetris/KernelsTieConv_proofs.v", "Tetris.KernelsTieConv_proofs", "Properties/KernelsTetrisConv.v",
+                    "layout21tetris/src/conv/raw.rs: RawExporter::track_cross_xy (centres of the track and of the crossing track, transposed on a horizontal layer) and "
+                    "RawExporter::instance_intersects (extent of the instance in the periodic direction, reflection, the two strict comparisons; with Dir::not, Place::abs, "
+                    "Index<Dir> for Xy, the DbUnits operators) = track_cross_xy / instance_intersects of Tetris/Compile.v"),
+    "raw_gdsx": ("Raw/KernelsTieRawGdsExport_proofs.v", "Raw.KernelsTieRawGdsExport_proofs", "Properties/KernelsRawGdsExport.v",
+                 "layout21raw/src/gds.rs (exporter): GdsExporter::export_point, export_layerspec, export_shape (rectangle as five points, polygon closed, path + width), "
+                 "label_location of Rect / Path / Polygon (bounding-box centre, four neighbours, early return) / Shape = export_point, export_layerspec, export_shape, rect_center, "
+                 "path_label, poly_label, label_location of Raw/RawGdsExport.v"),
+    "raw_gdsi": ("Raw/KernelsTieRawGdsImport_proofs.v", "Raw.KernelsTieRawGdsImport_proofs", "Properties/KernelsRawGdsImport.v",
+                 "layout21raw/src/gds.rs (importer): GdsImporter::import_point, import_point_vec, import_box, import_path (unsigned_abs of the width), import_units (the four float comparisons), import_instance (cell lookup, "
+                 "STRANS flags, magnification test, reflection and angle) = import_point, import_box, import_path, import_instance of Raw/RawGds.v (repaired variants)"),
+    "tetris_proto": ("Tetris/KernelsTieProto_proofs.v", "Tetris.KernelsTieProto_proofs", "Properties/KernelsTetrisProto.v",
+                     "layout21tetris/src/conv/proto.rs: ProtoExporter::export_outline (+ export_dimensions / export_dimension, generic over HasUnits, at PrimPitches), "
+                     "ProtoLibImporter::import_outline (+ import_prim_pitches_list / import_prim_pitches); outline.rs: Outline::from_prim_pitches (length test, two index loops) "
+                     "= export_outline / import_outline / from_prim_pitches of Tetris/TProto.v"),
+    "tetris_period": ("Tetris/KernelsTiePeriod_proofs.v", "Tetris.KernelsTiePeriod_proofs", "Properties/KernelsTetrisConv.v",
+                      "layout21tetris/src/conv/raw.rs: RawExporter::assign_track and the WHOLE of RawExporter::export_cell_layer_period (blockage loop, cut loop with the `&mut` borrow of "
+                      "track % nsig and the span centre - cutsize/2 .. + cutsize, bottom assignments with the via rectangle centre - size/2 .. + size and the cached via layer, top "
+                      "assignments, rails then signals) = assign_track / export_period of Tetris/Compile.v (repaired tree), outcomes by class"),
 }
 # the file generated for each family (evidence text)
-GENERATED = {"tetris_stack": "KernelsTetrisGen.v", "tetris_tracks": "KernelsTetrisGen.v", "tetris_place": "KernelsTetrisGen.v", "raw_lef": "KernelsRaw2Gen.v", "raw_proto": "KernelsRaw2Gen.v", "raw_gds": "KernelsRaw2Gen.v"}
+GENERATED = {"tetris_period": "KernelsTetrisConvPGen.v", "tetris_proto": "KernelsTetrisProtoGen.v", "raw_gdsi": "KernelsRawGdsImportGen.v", "tetris_conv": "KernelsTetrisConvXGen.v, KernelsTetrisConvIGen.v", "raw_gdsx": "KernelsRawGdsExportGen.v", "order_generic": "KernelsOrderGen.v", "order_raw": "KernelsRawOrderGen.v", "order_tetris": "KernelsTetrisOrderGen.v, KernelsTetrisProtoOrderGen.v (and KernelsOrderGen.v)", "tetris_stack": "KernelsTetrisGen.v", "tetris_tracks": "KernelsTetrisGen.v", "tetris_place": "KernelsTetrisGen.v", "raw_lef": "KernelsRaw2Gen.v", "raw_proto": "KernelsRaw2Gen.v", "raw_gds": "KernelsRaw2Gen.v"}
 TRANSLATOR = os.path.join(VERIF, "tools", "translate_rust_kernels.py")
 
 def _failing_lemma(out, coqdir):
